@@ -140,35 +140,59 @@ Proof.
   rewrite sl_ok by (unfold wf in Hw; lia). cbn [bind]. sdone.
 Qed.
 
-Theorem icmp6_process_total lbl_ok p e : wf p ->
-  forall fuel, (len p < fuel)%nat -> safe (icmp6_process lbl_ok fuel e p).
+Theorem icmp6_process_total lbl_ok p e ip6 : wf p -> wf (ip6_view ip6) ->
+  forall fuel, (len p < fuel)%nat -> safe (icmp6_process lbl_ok fuel e ip6 p).
 Proof.
-  intros Hw fuel Hf. unfold icmp6_process.
+  intros Hw Hw6 fuel Hf. unfold icmp6_process.
+  set (v := ip6_view ip6) in *. unfold ip6_is_valid.
+  destruct (Nat.ltb_spec (len v) 40) as [H40|H40]; [cbn [bind negb]; sdone|].
+  unfold wf in Hw6. rewrite be16_at_ok by lia. cbn [bind]. sif; [sdone|].
+  assert (Hsrc : safe (ip6_src v)) by (unfold ip6_src; rewrite sl_ok by lia; cbn [bind]; sdone).
+  assert (Hdst : safe (ip6_dst v)) by (unfold ip6_dst; rewrite sl_ok by lia; cbn [bind]; sdone).
+  assert (Hlog : safe (ip6_log v)).
+  { unfold ip6_log. apply safe_bind; [exact Hsrc|]. intros _ _. apply safe_bind; [exact Hdst|]. intros; sdone. }
+  assert (Hsb : forall (k : bytes -> res unit), (forall x, safe (k x)) -> safe (bind (ip6_src v) k))
+    by (intros k Hk; apply safe_bind; [exact Hsrc|intros; apply Hk]).
+  assert (Hdb : forall (k : bytes -> res unit), (forall x, safe (k x)) -> safe (bind (ip6_dst v) k))
+    by (intros k Hk; apply safe_bind; [exact Hdst|intros; apply Hk]).
+  assert (Hlb : forall (k : unit -> res unit), (forall x, safe (k x)) -> safe (bind (ip6_log v) k))
+    by (intros k Hk; apply safe_bind; [exact Hlog|intros; apply Hk]).
   destruct (Nat.ltb_spec (len p) 8); [sdone|].
   rewrite idx_ok by lia. cbn [bind].
+  apply safe_bind; [apply when_safe; exact Hlog|]. intros _ _.
   pose proof (fun off ty => lla_option_at_safe p off ty Hw) as Hlla.
   destruct (nth 0 (arr p) 0 =? 136).
   { destruct (Nat.ltb_spec (len p) 24); [sdone|].
     apply safe_bind.
-    { apply when_safe. acc28 Hw. apply Hlla. }
+    { apply when_safe. apply Hsb. intros _. acc28 Hw. apply Hlla. }
     intros _ _. acc28 Hw. sif; [|sdone].
-    apply safe_bind; [apply when_safe; acc28 Hw; apply Hlla|]. intros _ _.
+    apply safe_bind; [apply when_safe; apply Hlb; intros _; acc28 Hw; apply Hlla|]. intros _ _.
     destruct (Nat.ltb_spec (len p) 32); [sdone|]. acc28 Hw. sif; [sdone|]. acc28 Hw. sdone. }
   destruct (nth 0 (arr p) 0 =? 135).
   { destruct (Nat.ltb_spec (len p) 24); [sdone|].
-    apply safe_bind; [apply when_safe; acc28 Hw; apply Hlla|]. intros _ _.
-    sif; [apply when_safe; acc28 Hw; sdone|]. acc28 Hw. sif; acc28 Hw; sdone. }
+    apply safe_bind; [apply when_safe; apply Hsb; intros _; acc28 Hw; apply Hlla|]. intros _ _.
+    apply Hsb. intros src.
+    sif; [apply when_safe; acc28 Hw; exact Hlog|]. acc28 Hw. sif; [|sdone]. apply Hdb. intros _. acc28 Hw. sdone. }
   destruct (nth 0 (arr p) 0 =? 134).
   { destruct (Nat.ltb_spec (len p) 16); [sdone|].
     sif; [sdone|].
     apply safe_bind; [apply ra_options_total; [exact Hw|exact Hf]|].
-    intros _ _. acc28 Hw. rewrite !be32_at_ok by (unfold wf in Hw; lia). cbn [bind]. sdone. }
+    intros _ _. apply Hsb. intros _. apply safe_bind; [apply when_safe; exact Hlog|]. intros _ _.
+    acc28 Hw. rewrite !be32_at_ok by (unfold wf in Hw; lia). cbn [bind]. sdone. }
   destruct (nth 0 (arr p) 0 =? 133).
-  { apply when_safe. acc28 Hw. apply Hlla. }
-  destruct (nth 0 (arr p) 0 =? 129); [apply when_safe, echo_fastlog_safe; assumption|].
-  destruct (nth 0 (arr p) 0 =? 128); [apply when_safe, echo_fastlog_safe; assumption|].
+  { apply when_safe. apply Hsb. intros _. acc28 Hw. apply Hlla. }
+  destruct (nth 0 (arr p) 0 =? 129); [apply when_safe; apply Hsb; intros _; apply echo_fastlog_safe; assumption|].
+  destruct (nth 0 (arr p) 0 =? 128); [apply when_safe; apply Hlb; intros _; apply echo_fastlog_safe; assumption|].
   destruct (nth 0 (arr p) 0 =? 137).
-  { destruct (Nat.ltb_spec (len p) 40); [sdone|]. apply when_safe. acc28 Hw.
+  { destruct (Nat.ltb_spec (len p) 40); [sdone|]. apply when_safe. apply Hsb. intros _. acc28 Hw.
     apply safe_bind; [apply Hlla|]. intros _ _. acc28 Hw. sdone. }
-  sif; sdone.
+  sif; [apply when_safe; apply Hsb; intros; sdone|].
+  sif; [apply when_safe; exact Hlog|]. apply Hsb. intros; sdone.
 Qed.
+
+(* ICMPv6 carried by IPv4 (protocol 58): Parse classifies the frame PayloadICMP6 with no IPv6
+   header; the processor (as repaired by d9f9e28) returns an error *)
+Example icmp6_without_ip6_header :
+  icmp6_process (fun _ => true) 100 (mkIcmp6Env true true true) None
+                (of_bytes [135; 0; 0; 0; 0; 0; 0; 0; 254; 128; 0; 0; 0; 0; 0; 0; 0; 0; 0; 0; 0; 0; 0; 1]) = Err EFrameLen.
+Proof. vm_compute. reflexivity. Qed.
